@@ -171,6 +171,8 @@ theorem handlePieceWriteDone_idlAll (m : M) (w : WriteJob) (e : Bool) (h : IdlAl
   · unfold pwdBan
     dsimp only
     exact (closePeerM_idlAll _ w.src h0).of_eq (by simp)
+  split
+  · exact h0
   · split
     · simp only [onSt_fst]; exact stop_idlAll _ _ h0
     · have h1 : IdlAll P (pwdDone (pwdReset m w) w).1 := h0.of_eq (by simp)
@@ -186,6 +188,7 @@ theorem writerRun_idlAll (m : M) (w : WriteJob) (h : IdlAll P m.1) : IdlAll P (w
   all_goals first
     | exact handlePieceWriteDone_idlAll _ _ _ h
     | exact handlePieceWriteDone_idlAll _ _ _ (h.of_eq (by simp))
+    | exact h.of_eq (by simp)
 
 theorem handleStopped_idlAll (m : M) (h : IdlAll P m.1) : IdlAll P (handleStopped m).1 := h.of_eq (by simp)
 
@@ -201,6 +204,7 @@ theorem runWorkers_idlAll (fuel : Nat) (m : M) (h : IdlAll P m.1) : IdlAll P (ru
       | exact ih _ (handleStopped_idlAll _ h)
       | exact ih _ (allocatorRun_idlAll _ h)
       | exact ih _ (handleVerificationDone_idlAll _ h)
+      | exact ih _ (handlePieceWriteDone_idlAll _ _ _ h)
       | exact ih _ (writerRun_idlAll _ _ h)
 
 theorem deliverParked_idlAll (m : M) (p : Parked) (h : IdlAll P m.1) : IdlAll P (deliverParked m p).1.1 := by
